@@ -161,8 +161,12 @@ func runC18(m *Sim) {
 		case 4:
 			time.Sleep(expiry + time.Duration(1+m.C.Int("beyond", 1000))*time.Millisecond)
 		case 5:
-			time.Sleep(time.Duration(1+m.C.Int("years", 3)) * 365 * 24 * time.Hour)
-			m.Probe("c18.years")
+			// The bubble clock is an int64 of nanoseconds: stay well inside
+			// its range (the runtime misbehaves when a timer saturates).
+			if time.Now().Year() < 2180 {
+				time.Sleep(time.Duration(1+m.C.Int("years", 3)) * 365 * 24 * time.Hour)
+				m.Probe("c18.years")
+			}
 		}
 		switch m.C.Weighted("call", 8, 2, 1) {
 		case 0:
